@@ -68,7 +68,7 @@ def mutations(st):
         elif isinstance(t, ast.Subscript):
             v = t.value
             if isinstance(v, ast.Attribute) and v.attr == '_vals_': out.append(('_vals_', base_of(v.value), 'store'))
-            elif dotted(v) == 'objects_to_save': out.append(('save_queue', '', 'store'))
+            elif dotted(v) == 'objects_to_save': out.append(('queue_slot', '', 'store'))          # a slot of the queue is vacated / refilled: its own location class
             elif is_index_expr(v): out.append(('index', '', 'store'))
         elif isinstance(t, ast.Name):
             if isinstance(st, ast.AugAssign) and t.id.startswith('setdata') and isinstance(st.op, (ast.BitOr, ast.Sub, ast.BitAnd)):
@@ -95,12 +95,18 @@ def simple_stmts(fn_node):
 
 def status_after(fn_node, st):
     """constant assigned to <x>._status_ in the same statement list as st (the status the forward branch leaves) or None"""
+    # the statement list that holds st, then the lists that enclose it (innermost first): `if status == 'modified': q[pos] = None` sits one level
+    # below the `obj._status_ = 'marked_to_delete'` of its branch
+    holders = []
     for body in bodies_of(fn_node):
-        if st in body:
-            for s in body:
-                if isinstance(s, ast.Assign) and any(isinstance(t, ast.Attribute) and t.attr == '_status_' for t in s.targets) \
-                        and isinstance(s.value, ast.Constant) and isinstance(s.value.value, str):
-                    return s.value.value
+        if any(st is x or any(st is y for y in ast.walk(x)) for x in body if not isinstance(x, (ast.FunctionDef, ast.AsyncFunctionDef, ast.ClassDef))):
+            holders.append(body)
+    holders.sort(key=lambda b: sum(1 for x in b for _ in ast.walk(x)))          # smallest (innermost) first
+    for body in holders:
+        for s in body:
+            if isinstance(s, ast.Assign) and any(isinstance(t, ast.Attribute) and t.attr == '_status_' for t in s.targets) \
+                    and isinstance(s.value, ast.Constant) and isinstance(s.value.value, str):
+                return s.value.value
     return None
 
 
@@ -366,7 +372,7 @@ def cover_rule(ctx, f, g, closures, has_param, only_locs, prefix):
             # can a failure follow this mutation?  (functions with an undo parameter: the caller may still fail)
             follows = has_param or bool(undo_list_params) or any(p.id in g.reach([n], include_src=False) for p in fail_ids)
             if not follows: continue
-            st_const = status_after(f.node, n.ast) if loc in ('save_queue', '_save_pos_', '_status_', 'index') else None
+            st_const = status_after(f.node, n.ast) if loc in ('save_queue', 'queue_slot', '_save_pos_', '_status_', 'index') else None
             covered = any(loc in closure_restores(ctx, c, st_const) for c in reg_closures)
             how = 'closure'
             if not covered and loc == 'index':
